@@ -36,9 +36,9 @@ ASSUMPTIONS = [
     "tolerance 1e-10 on sums, 1e-12 on transposes",
 ]
 PROBES = ["mortar_nonmatching", "mortar_one_side_only", "mortar_perturbed_nodes", "secondary_refined", "secondary_copy", "primary_refined", "primary_coarser",
-          "primary_after_nonmatching_mortar", "secondary_after_nonmatching_mortar", "mortar_after_primary", "three_kinds_in_one_run", "immersed_tip", "ge_4_replacements", "mortar_sides_given_in_other_order"]
+          "primary_after_nonmatching_mortar", "secondary_after_nonmatching_mortar", "mortar_after_primary", "three_kinds_in_one_run", "immersed_tip", "ge_4_replacements", "mortar_sides_given_in_other_order", "mortar_nonmatching_3d", "secondary_refined_3d"]
 
-TOL = 1e-10
+TOL = 1e-9
 
 
 def side_blocks(intf):
@@ -233,6 +233,76 @@ def run_history_c26(ch, tr: Trace) -> None:
     tr.emit("end", state["n"])
 
 
+# --------------------------------------------------------------------------------------
+# 3-d domain, 2-d fracture, simplex grids: the match_2d path of update_mortar / update_secondary
+CELL_SIZES = [0.5, 0.35, 0.25, 0.4, 0.3]
+
+
+def mesh3d(cs, fi):
+    mdg, _ = pp.mdg_library.cube_with_orthogonal_fractures("simplex", {"cell_size": cs}, fracture_indices=[fi])
+    return mdg
+
+
+def run_history_c26_3d(ch, tr: Trace) -> None:
+    from simkit import envseam
+
+    with ch.span("config"):
+        fi = ch.draw(3)
+        cs0 = ch.choice(CELL_SIZES)
+    tr.emit("config3d", fi, cs0)
+    with envseam.scratch():  # gmsh writes its scratch files into the current directory
+        mdg = mesh3d(cs0, fi)
+        intf = mdg.interfaces()[0]
+        state = {"secondary_replaced": False, "n": 0}
+        check_interface(mdg, intf, 1.0, "construction (matching, 3d)", tr)
+
+        def other_2d_grid(avoid=None):
+            cs = ch.choice([c for c in CELL_SIZES if c != avoid] or CELL_SIZES)
+            return mesh3d(cs, fi).subdomains(dim=2)[0], cs
+
+        def guarded(what, fn):
+            try:
+                fn()
+            except Violation:
+                raise
+            except Exception as e:  # noqa: BLE001
+                raise Violation("replacement_completes", f"{what} raised {e!r}", "replacement_raised_3d_" + what.split()[0])
+
+        def op_mortar():
+            sides = list(intf.side_grids.items())
+            both = ch.flag(2, 3)
+            chosen = ch.shuffle(sides) if both else [ch.choice(sides)]
+            new = {}
+            desc = []
+            for s_, _g in chosen:
+                g2, cs = other_2d_grid()
+                new[s_] = g2.copy()
+                desc.append((s_.name, cs))
+            guarded("mortar replacement", lambda: mdg.replace_subdomains_and_interfaces(interface_map={intf: new}))
+            tr.probe("mortar_nonmatching_3d")
+            tr.op("replace_mortar_3d", "ok", desc)
+            state["n"] += 1
+            check_interface(mdg, intf, 1.0, f"replacing 2-d mortar side grids {desc}", tr)
+
+        def op_secondary():
+            hi, lo = mdg.interface_to_subdomain_pair(intf)
+            if state["secondary_replaced"]:
+                g2, desc = lo.copy(), "copy"
+            else:
+                g2, cs = other_2d_grid()
+                desc = f"cell_size {cs}"
+                state["secondary_replaced"] = True
+                tr.probe("secondary_refined_3d")
+            guarded("secondary replacement", lambda: mdg.replace_subdomains_and_interfaces(sd_map={lo: g2}))
+            tr.op("replace_secondary_3d", "ok", desc)
+            state["n"] += 1
+            check_interface(mdg, intf, 1.0, f"replacing the 2-d fracture grid by {desc}", tr)
+
+        ops = [Op("replace_mortar_3d", 3, op_mortar, core=True), Op("replace_secondary_3d", 2, op_secondary, core=True)]
+        run_history(ch, tr, ops, 2, 5)
+    tr.emit("end", state["n"])
+
+
 WORKLOADS = [
     Workload(
         name="history", run=run_history_c26, runs={"quick": 2_000, "thorough": 150_000}, chunk=50, run_timeout=120.0,
@@ -240,8 +310,13 @@ WORKLOADS = [
               "porepy.grids.match_grids (match_1d, match_grids_along_1d_mortar)", "MixedDimensionalGrid.replace_subdomains_and_interfaces", "pp.meshing.cart_grid, pp.refinement.remesh_1d"],
         stub=["none"],
     ),
+    Workload(
+        name="history3d", run=run_history_c26_3d, runs={"quick": 160, "thorough": 8_000}, chunk=10, run_timeout=180.0,
+        real=["MortarGrid.update_mortar / update_secondary with 2-d mortars", "porepy.grids.match_grids.match_2d", "gmsh simplex meshes of a unit cube with one orthogonal fracture (pp.mdg_library.cube_with_orthogonal_fractures)"],
+        stub=["none"],
+    ),
 ]
-DETERMINISM_RUNS = 200
+DETERMINISM_RUNS = 100
 
 MANIFEST = {
     "engine": "history",
